@@ -605,9 +605,11 @@ ra_reg_is_part_of(RegisterArea *a, RegisterEntry *e)
 static bool
 ra_reg_fits_into(RegisterArea *a, RegisterEntry *e)
 {
-    const RegisterAddress area_end = a->base + a->size;
-    const RegisterAddress entry_end = e->address + rds_size[e->type];
-    return (entry_end <= area_end);
+    /* The entry starts inside the area (ra_reg_is_part_of); compare extents
+     * relative to the area's base: Sums of addresses and sizes wrap around at
+     * the top of the address space. */
+    const RegisterOffset offset = e->address - a->base;
+    return (offset < a->size) && (rds_size[e->type] <= (a->size - offset));
 }
 
 static AreaHandle
